@@ -294,6 +294,25 @@ def check_state(ctx, name, consts, ref, rp, by_hist):
         except Exception as ex:
             ctx.violation('exception %s in HSplineFunc truncate=%s %s' % (type(ex).__name__, trunc, sig), {'error': repr(ex)})
 
+    # (iv'') the flag of the function against the flag of the space: a space built with truncate=True/False and the argument
+    # truncate=None (inherit from the space) / False / True -- the explicit argument wins, None inherits
+    try:
+        hs_thb, _, errt2 = hs_util.replay_history(consts, hist, truncate=True, truncflag=consts['TruncMark'])
+        if errt2 is None and hs_util.project(hs_thb) == hs_util.project(hs):
+            for space, sflag in ((hs, False), (hs_thb, True)):
+                for arg in (None, False, True):
+                    if space is hs and arg is not None:
+                        continue                      # done above
+                    eff = sflag if arg is None else arg
+                    f = hierarchical.HSplineFunc(space, u) if arg is None else hierarchical.HSplineFunc(space, u, truncate=arg)
+                    g = bspline.BSplineFunc(kvf, ((T if eff else H) @ u).reshape(tuple(kv.numdofs for kv in kvf)))
+                    a, b = np.asarray(f.grid_eval(grid), dtype=float), np.asarray(g.grid_eval(grid), dtype=float)
+                    if a.shape != b.shape or abs(a - b).max() > 1e-10 * max(1.0, abs(b).max()) * (4 ** (Lc - 1)) ** 2:
+                        ctx.violation('HSplineFunc.grid_eval space-truncate=%s argument-truncate=%s %s' % (sflag, arg, sig),
+                                      {'maxdiff': float(abs(a - b).max()) if a.shape == b.shape else 'shape'})
+    except Exception as ex:
+        ctx.violation('exception %s in HSplineFunc flag combinations %s' % (type(ex).__name__, sig), {'error': repr(ex)})
+
     # (iv') directions that differ ONLY in the position of their knots (same degree, size, interval): uniform along one axis,
     # graded along the other -- outside the HSpace model (uniform levels), so a numeric predicate on the same history:
     # level-wise evaluation of random coefficients = the finest tensor-product spline with coefficients represent_fine() u
